@@ -22,6 +22,9 @@ META = {
 
 
 def check(run):
+    # an output closed by a rotation is a complete file only if nothing was dropped on the way into it (R06.2 imported)
+    from . import C06 as _C06
+    _C06.check_public_writes(run, rename={"R06.2": "R13.7", "R06.3": None})
     facts = run.facts
     # ---------------- R13.1 (exporter): framing obligations are shared with C02
     C02.check_framing(run)
@@ -41,11 +44,26 @@ def check(run):
         exp = [c for c in calls if callee_qn(c[0]) == EXP + "::write_block"]
         flag = "p:%s" % rf["params"][1]["n"]
         ok = len(exp) == 1 and conjuncts(exp[0][1]) == [("nz", flag)] and not exp[0][0].get("args")
+        why_bad = "write_block() must be called exactly under export_current_block (found guard %s)" % (show_f(exp[0][1]) if exp else "no call")
+        one_arg = False
+        if len(exp) == 1 and conjuncts(exp[0][1]) == [("nz", flag)] and exp[0][0].get("args") and path(exp[0][0]["args"][0]) == ("this", "m_block"):
+            # the same export spelled out: write_block(m_block), then - under the same flag - clear and re-arm (what write_block()
+            # does after the write)
+            one_arg = True
+            later = [c for c in calls if calls.index(c) > calls.index(exp[0])]
+            cl_ = [c for c in later if callee_qn(c[0]) == "CDNS::CdnsBlock::clear" and path(c[0].get("recv")) == ("this", "m_block") and conjuncts(c[1]) == [("nz", flag)]]
+            ra_ = [c for c in later if callee_qn(c[0]) == "CDNS::CdnsBlock::set_block_parameters" and path(c[0].get("recv")) == ("this", "m_block") and conjuncts(c[1]) == [("nz", flag)]]
+            ok = bool(cl_) and bool(ra_)
+            if not ok:
+                why_bad = "write_block(m_block) exports the buffered block but it is not cleared and re-armed under the same flag afterwards: its records " \
+                    "would appear again in the next output"
         run.ob("R13.1", "%s:export-iff-requested" % tag, ok, rf, exp[0][0]["l"] if exp else rf["line"],
-               "the buffered block is exported exactly when export_current_block is true" if ok else
-               "write_block() must be called exactly under export_current_block (found guard %s)" % (show_f(exp[0][1]) if exp else "no call"))
+               "the buffered block is exported exactly when export_current_block is true" if ok else why_bad)
         clears = [c for c in calls if callee_name(c[0]) in ("clear", "reset") and path(c[0].get("recv")) == ("this", "m_block")]
         touched = [lp for lp, rhs, node in consumption.assignment_targets(ir.stmts(rf["body"])) if lp and lp[:2] == ("this", "m_block")]
+        if one_arg:
+            # clearing is part of the export there: only a clear outside the flag loses records that were not exported
+            clears = [c for c in clears if conjuncts(c[1]) != [("nz", flag)]]
         run.ob("R13.1", "%s:keeps-buffered-records" % tag, not clears and not touched, rf, (clears[0][0]["l"] if clears else rf["line"]),
                "rotation does not touch the buffered block: records buffered without export appear in the next output" if not clears and not touched else
                "rotate_output clears/overwrites m_block: records buffered but not exported are lost")
